@@ -273,21 +273,13 @@ def handleUserMappings (u : SUnit) (sec : Str) (supportManual : Bool) : R (List 
 /-! ### .volume -/
 def supportedVolume : List Str := Gen.SUPPORTED_VOLUME_KEYS
 
-def fromVolume (E : Env) (path : Str) (u : SUnit) : R (SUnit × Str) := do
+/-- the options of `volume create` that describe the volume: `--driver`, then either the image of an image-driven volume (a
+    reference to an .image unit adds its dependencies to the service) or the options of a mounted device and the copy mode -/
+def volumeOpts (E : Env) (u : SUnit) (svc : SUnit) : R (List Str × SUnit) :=
   let sec := s "Volume"
-  let svc := startService path u
-  checkUnknown u sec supportedVolume
-  checkUnknown u (s "Quadlet") supportedQuadlet
-  let svc := renameSection svc sec (s "X-Volume")
-  let svc := renameSection svc (s "Quadlet") (s "X-Quadlet")
-  let vn := (lookup u sec (s "VolumeName")).getD []
-  let volName := if vn.isEmpty then s "systemd-" ++ fileStem (fileName path) else vn
-  let svc := addS svc "Unit" "RequiresMountsFor" (s "%t/containers")
-  let labels := lookupAllKeyVal u sec (s "Label")
-  let cmd0 := baseCmd E u sec ++ [s "volume", s "create", s "--ignore"]
   let driver := (lookup u sec (s "Driver")).filter (fun d => !d.isEmpty)
-  let cmd1 := cmd0 ++ (match driver with | some d => [s "--driver", d] | none => [])
-  let (cmd2, svc) ← (if driver == some (s "image") then do
+  let cmd1 : List Str := (match driver with | some d => [s "--driver", d] | none => [])
+  if driver == some (s "image") then do
       match lookup u sec (s "Image") with
       | none => throw Err.imageMandatory
       | some img =>
@@ -309,8 +301,22 @@ def fromVolume (E : Env) (path : Str) (u : SUnit) : R (SUnit × Str) := do
       if mo.isSome && dev.isNone then throw Err.deviceOptions
       let opts := uidOpt ++ gidOpt ++ (match mo with | some o => [o] | none => [])
       let oArgs := if opts.isEmpty then [] else [s "--opt", s "o=" ++ commaJoin opts]
-      pure (cmd1 ++ copy ++ devArgs ++ tyArgs ++ oArgs, svc) : R (List Str × SUnit))
-  let cmd := cmd2 ++ addKeys "--label" labels ++ podmanArgs u sec ++ [volName]
+      pure (cmd1 ++ copy ++ devArgs ++ tyArgs ++ oArgs, svc)
+
+def fromVolume (E : Env) (path : Str) (u : SUnit) : R (SUnit × Str) := do
+  let sec := s "Volume"
+  let svc := startService path u
+  checkUnknown u sec supportedVolume
+  checkUnknown u (s "Quadlet") supportedQuadlet
+  let svc := renameSection svc sec (s "X-Volume")
+  let svc := renameSection svc (s "Quadlet") (s "X-Quadlet")
+  let vn := (lookup u sec (s "VolumeName")).getD []
+  let volName := if vn.isEmpty then s "systemd-" ++ fileStem (fileName path) else vn
+  let svc := addS svc "Unit" "RequiresMountsFor" (s "%t/containers")
+  let labels := lookupAllKeyVal u sec (s "Label")
+  let cmd0 := baseCmd E u sec ++ [s "volume", s "create", s "--ignore"]
+  let (opts, svc) ← volumeOpts E u svc
+  let cmd := cmd0 ++ opts ++ addKeys "--label" labels ++ podmanArgs u sec ++ [volName]
   let svc ← addRawExec svc "ExecStart" cmd
   pure (oneShot svc true, volName)
 
